@@ -452,6 +452,9 @@ func (h *NetH) proof(ps ProofSpec, height uint64) ([]byte, string) {
 	if err != nil {
 		return garbage, "PGarbage"
 	}
+	if forge == "empty" {
+		return []byte{}, "PGarbage" // refused by the message's ValidateBasic
+	}
 	if forge != "" {
 		return bz, "PGarbage"
 	}
